@@ -238,6 +238,11 @@ def check(case, ctx):
             return
         dumps = m.dumps_json
         ctx.count('model_value')
+    if case.get('intern', True):
+        # equal date / path leaves become the same object: still a tree
+        value, n = proj.intern_leaves(value, m)
+        if n:
+            ctx.count('date_or_path_leaf_object_used_twice')
     try:
         yproj = proj.Projector(m, json=False).project(value)
         jproj = proj.Projector(m, json=True).project(value)
